@@ -2897,6 +2897,14 @@ def huge_header_cases(prefix):
         dup = list(names)
         dup[n - 1] = names[n - 256] if n > 256 else names[0]
         cases.append({"id": "%s-huge-%d-dup" % (prefix, n), "kind": "parse", "src": " ".join(dup) + "\n" + row1 + "\n"})
+    # a driver whose answers have 270 entries (a position does not fit in a byte), in reverse order, some of them unknown to the test
+    n = 300
+    names = ["o%d" % i for i in range(n)]
+    sigs = [{"name": nm_, "typ": "I" if i % 10 == 0 else "O", "bits": 4, "default": "0" if i % 10 == 0 else "-"} for i, nm_ in enumerate(names)]
+    lay = [i for i in reversed(range(n)) if i % 10]
+    row = " ".join(("1" if i % 10 == 0 else ("X" if i % 4 else str(i % 16))) for i in range(n))
+    cases.append({"id": "%s-huge-out-300" % prefix, "kind": "run", "src": " ".join(names) + "\n" + row + "\n" + row + "\n", "sigs": sigs, "layout": lay,
+                  "table": [[str(i % 16) for i in lay], [str((i + 1) % 16) for i in lay]], "echo": 0, "wdefault": 0, "faults": [], "max": 6, "seed": 7, "cont": 0})
     long_a, long_b = "N" * 300, "N" * 299 + "M"
     sigs = [{"name": long_a, "typ": "I", "bits": 4, "default": "0"}, {"name": long_b, "typ": "O", "bits": 4, "default": "-"}]
     cases.append({"id": "%s-longnames" % prefix, "kind": "run", "src": "%s %s\n3 (%s)\n(%s+1) X\n" % (long_a, long_b, long_b, long_b), "sigs": sigs, "layout": [1], "table": [["5"]],
@@ -2905,7 +2913,7 @@ def huge_header_cases(prefix):
     return cases
 
 
-for _p in ("C06", "C09", "C10", "C11", "C12", "C05"):
+for _p in ("C06", "C09", "C10", "C11", "C12", "C05", "C03", "C13"):
     _extend(_p, (lambda pref: (lambda seed, tier: huge_header_cases(pref)))(_p.lower()), "plus headers of 255-300 columns (with a far duplicate; X / C in the last columns) and names of 300 bytes")
 
 
